@@ -46,6 +46,7 @@ Judge(s, e) ==
        ELSE IF o.single_dev > a.tol THEN "single.not_the_saturation_value"
        ELSE IF o.scale_dev > a.tol THEN "composition.depends_on_scale"
        ELSE IF o.perm_dev > a.tol THEN "composition.depends_on_order"
+       ELSE IF o.hist_dev > a.tol THEN "composition.depends_on_earlier_requests"
        ELSE "ok"
   ELSE \* exact sub-world: a.T in K (integer), a.P in kPa (integer); obs.T6 (1e-6 K), obs.P6 (1e-6 kPa), obs.c9 (1e-9)
        IF e.op = "bubble_P" THEN
@@ -65,7 +66,8 @@ Judge(s, e) ==
             ELSE "ok"
 Legal(s) == TRUE
 ObsLegal(e) == TRUE
-Suspended(e) == FALSE
+\* measured cases whose bubble / dew pressure at the drawn temperature lies outside 5e3 - 3e6 Pa are outside the quantifier of C08
+Suspended(e) == e.op = "measured" /\ ~e.obs.in_range
 InitFrom(r) == w = r.w /\ path = <<>>
 
 ---------------------------------------------------------------------------
